@@ -192,3 +192,9 @@ package bscript
 //@ func bscript.NewP2PKHUnlockingScript
 //@   bytes token
 //@   ensures[C04.unlock_script] (=> (= err nil) (and (not (nil? r0)) (= (bytes r0) (spec.p2pkh_unlock (old (bytes sig)) sigHashFlag (old (bytes pubKey))))))
+
+// whether a script is a P2PKH inscription, as a name: insc_ok(script object) is what IsP2PKHInscription answers for the
+// script in its current state (definition clause; the function itself is under safety contracts, C14)
+//@ smt (declare-fun insc_ok (Ref) Bool)
+//@ func bscript.(*Script).IsP2PKHInscription
+//@   define (= result (insc_ok s))
